@@ -322,7 +322,8 @@ def mismatch(got, exp, scale, rtol, mask=None):
         return "shape %s vs %s" % (got.shape, exp.shape)
     scale = np.broadcast_to(np.asarray(scale, dtype=float), exp.shape)
     with np.errstate(all="ignore"):
-        same = (got == exp) | (np.isnan(got) & np.isnan(exp)) | (np.abs(got - exp) <= rtol * np.where(np.isfinite(scale), scale, 0.0))
+        # (subnormal numbers carry only a few significant bits: differences below 1e-300 are rounding of the subnormal range, not values)
+        same = (got == exp) | (np.isnan(got) & np.isnan(exp)) | (np.abs(got - exp) <= rtol * np.where(np.isfinite(scale), scale, 0.0) + 1e-300)
     if mask is not None:
         same = same | ~mask
     if np.all(same):
